@@ -10,7 +10,7 @@ import (
 // Op kinds. ref: "M0"/"M1" = module pre-instantiated before the threads start; "mine" = the module
 // returned by the previous inst/hostInst of the same thread.
 type Op struct {
-	K    string `json:"k"`              // inst hostInst lookup close closeCode isClosed rtClose rtCloseCode compile hostCompile
+	K    string `json:"k"`              // inst hostInst lookup close closeCode isClosed rtClose rtCloseCode compile hostCompile ctxCall call asyncCtxCall
 	Name string `json:"name,omitempty"` // module name
 	Ref  string `json:"ref,omitempty"`
 }
@@ -43,6 +43,9 @@ func Scenarios(thorough bool) []Scenario {
 	C := func(r string) Op { return Op{K: "close", Ref: r} }
 	CC := func(r string) Op { return Op{K: "closeCode", Ref: r} }
 	Q := func(r string) Op { return Op{K: "isClosed", Ref: r} }
+	XC := func(r string) Op { return Op{K: "ctxCall", Ref: r} }
+	FC := func(r string) Op { return Op{K: "call", Ref: r} }
+	AX := func(r string) Op { return Op{K: "asyncCtxCall", Ref: r} }
 	RC := Op{K: "rtClose"}
 	RCC := Op{K: "rtCloseCode"}
 	CM := Op{K: "compile"}
@@ -83,6 +86,23 @@ func Scenarios(thorough bool) []Scenario {
 	add("close-M0;inst-a||close-M1;inst-b", []string{"a", "b"}, []Op{C("M0"), I("a")}, []Op{C("M1"), I("b")})
 	add("close-M0||close-M1||inst-c;look-a", []string{"a", "b"}, []Op{C("M0")}, []Op{C("M1")}, []Op{I("c"), L("a")})
 	add("inst-c;close||close-M0;look-a;look-c", []string{"a", "b"}, []Op{I("c"), C("mine")}, []Op{C("M0"), L("a"), L("c")})
+	// a call with a cancelled context closes the module (close-on-context-done); later calls into it fail and
+	// must not release or notify anything a second time
+	add("ctxcall-M0;call-M0||look-a", a, []Op{XC("M0"), FC("M0")}, []Op{L("a")})
+	add("ctxcall-M0;call-M0;call-M0||isclosed;inst-a", a, []Op{XC("M0"), FC("M0"), FC("M0")}, []Op{Q("M0"), I("a")})
+	add("ctxcall-M0||close-M0;call-M0", a, []Op{XC("M0")}, []Op{C("M0"), FC("M0")})
+	add("ctxcall-M0||call-M0;call-M0", a, []Op{XC("M0")}, []Op{FC("M0"), FC("M0")})
+	add("ctxcall-M0||ctxcall-M0||call-M0", a, []Op{XC("M0")}, []Op{XC("M0")}, []Op{FC("M0")})
+	add("ctxcall-M0;call-M0||rtclose", a, []Op{XC("M0"), FC("M0")}, []Op{RC})
+	add("inst-a;ctxcall;call||look-a", nil, []Op{I("a"), XC("mine"), FC("mine")}, []Op{L("a")})
+	// the context of an in-flight call is cancelled: the watcher closes the module without releasing its
+	// resources, which the end of that call (or any later call) releases, exactly once
+	add("asyncctx-M0;call-M0||look-a", a, []Op{AX("M0"), FC("M0")}, []Op{L("a")})
+	add("asyncctx-M0||call-M0", a, []Op{AX("M0")}, []Op{FC("M0")})
+	add("asyncctx-M0||asyncctx-M0", a, []Op{AX("M0")}, []Op{AX("M0")})
+	add("asyncctx-M0||close-M0;inst-a", a, []Op{AX("M0")}, []Op{C("M0"), I("a")})
+	add("asyncctx-M0||rtclose", a, []Op{AX("M0")}, []Op{RC})
+	add("asyncctx-M0||isclosed;look", a, []Op{AX("M0")}, []Op{Q("M0"), L("a")})
 	// runtime close
 	add("rtclose||inst-a", nil, []Op{RC}, []Op{I("a")})
 	add("rtclose||inst-a;isclosed", nil, []Op{RC}, []Op{I("a"), Q("mine")})
